@@ -1,10 +1,9 @@
 (* JsExpr/StmtModel.v — executable model of the statement forms of parseStmt that are thin wrappers around
    parseExpression: block, var (identifier bindings), if / else, while (also rewritten to for with Options.WhileToFor),
-   do-while, for ( ; ; ) with an expression or var initialiser, throw, break / continue, debugger, with, try / catch / finally, switch, labelled statements; expression and empty statements are those of Pratt.v
+   do-while, for ( ; ; ) with an expression or var initialiser, throw, break / continue, debugger, with, try / catch / finally, switch, let / const declarations (identifier bindings), labelled statements; expression and empty statements are those of Pratt.v
    ([parse_stmt]).  Every form ends with the tail of parseStmt ([skip_semi]): a ';' is taken on the same line, and after
    a line break when the statement is one that a ';' terminates (var, expression, do-while, break / continue, throw).
-   Not modelled ([OutFrag]): for-in / for-of / for await, return (only inside functions), function / class declarations, let /
-   const declarations, import / export, binding patterns, yield / await as names; scopes (C04); the statement nesting
+   Not modelled ([OutFrag]): for-in / for-of / for await, return (only inside functions), function / class declarations, import / export, binding patterns, yield / await as names; scopes (C04); the statement nesting
    limit (C01).  Definitions only. *)
 From Verif Require Import Common.Base Gen.PrattTable JsExpr.Syntax JsExpr.Pratt.
 
@@ -26,7 +25,8 @@ Inductive xstmt :=
 | XDebugger
 | XWith (c : expr) (s : xstmt)
 | XTry (b : list xstmt) (c : option (option (list Z) * list xstmt)) (f : option (list xstmt))    (* try b [catch [(n)] c] [finally f] *)
-| XSwitch (e : expr) (cl : list (option expr * list xstmt)).                                     (* switch (e) { case x: l ... default: l } *)
+| XSwitch (e : expr) (cl : list (option expr * list xstmt))                                      (* switch (e) { case x: l ... default: l } *)
+| XLex (t : Z) (l : list (list Z * option expr)).          (* let / const declaration (t: LetToken or ConstToken) *)                                     (* switch (e) { case x: l ... default: l } *)
 
 (* var a [= e] , b [= e] ...   after the `var`; bindings other than identifiers are outside the fragment *)
 Fixpoint parse_xvar (n : nat) (inf : bool) (ts : list token) (acc : list (list Z * option expr)) {struct n}
@@ -171,7 +171,7 @@ Definition ends_clause (ts : list token) : bool :=
   | [] => true
   end.
 
-Fixpoint parse_xstmt (n : nat) (w2f : bool) (ts : list token) {struct n} : res (xstmt * list token) :=
+Fixpoint parse_xstmt (n : nat) (w2f : bool) (ad : bool) (ts : list token) {struct n} : res (xstmt * list token) :=
   match n with
   | O => NoFuel
   | S m =>
@@ -183,14 +183,27 @@ Fixpoint parse_xstmt (n : nat) (w2f : bool) (ts : list token) {struct n} : res (
       else if ty k =? tt_VarToken then
         '(l, r) <~ parse_xvar (S (length rest)) true rest [] ;;
         if stmt_end_ok r then Ok (XVar l, skip_semi true r) else Fail
+      else if ty k =? tt_ConstToken then
+        (* a const declaration: where declarations are allowed, every binding with an initialiser *)
+        if negb ad then Fail
+        else
+          '(l, r) <~ parse_xvar (S (length rest)) true rest [] ;;
+          if negb (forallb (fun b : list Z * option expr => match snd b with Some _ => true | None => false end) l) then Fail
+          else if stmt_end_ok r then Ok (XLex tt_ConstToken l, skip_semi true r) else Fail
+      else if (ty k =? tt_LetToken) && ad &&
+              match rest with c :: _ => is_identifier (ty c) || (ty c =? tt_YieldToken) || (ty c =? tt_AwaitToken)
+                                       || (ty c =? tt_OpenBracketToken) || (ty c =? tt_OpenBraceToken) | [] => false end then
+        (* a let declaration *)
+        '(l, r) <~ parse_xvar (S (length rest)) true rest [] ;;
+        if stmt_end_ok r then Ok (XLex tt_LetToken l, skip_semi true r) else Fail
       else if ty k =? tt_IfToken then
         r1 <~ expect tt_OpenParenToken rest ;;
         '(c, r2) <~ parse true prec_OpExpr r1 ;;
         r3 <~ expect tt_CloseParenToken r2 ;;
-        '(s, r4) <~ parse_xstmt m w2f r3 ;;
+        '(s, r4) <~ parse_xstmt m w2f false r3 ;;
         match r4 with
         | e :: r5 =>
-            if ty e =? tt_ElseToken then '(s2, r6) <~ parse_xstmt m w2f r5 ;; Ok (XIf c s (Some s2), skip_semi false r6)
+            if ty e =? tt_ElseToken then '(s2, r6) <~ parse_xstmt m w2f false r5 ;; Ok (XIf c s (Some s2), skip_semi false r6)
             else Ok (XIf c s None, skip_semi false r4)
         | [] => Ok (XIf c s None, [])
         end
@@ -198,12 +211,12 @@ Fixpoint parse_xstmt (n : nat) (w2f : bool) (ts : list token) {struct n} : res (
         r1 <~ expect tt_OpenParenToken rest ;;
         '(c, r2) <~ parse true prec_OpExpr r1 ;;
         r3 <~ expect tt_CloseParenToken r2 ;;
-        '(s, r4) <~ parse_xstmt m w2f r3 ;;
+        '(s, r4) <~ parse_xstmt m w2f false r3 ;;
         if w2f then Ok (XFor FNone (Some c) None (match s with XBlock l => l | _ => [s] end), skip_semi false r4)
         else Ok (XWhile c s, skip_semi false r4)
-      else if ty k =? tt_ForToken then for_arm (parse_xstmt m w2f) (fun ts' => parse_xlist m w2f ts' []) rest
+      else if ty k =? tt_ForToken then for_arm (parse_xstmt m w2f false) (fun ts' => parse_xlist m w2f ts' []) rest
       else if ty k =? tt_DoToken then
-        '(s, r1) <~ parse_xstmt m w2f rest ;;
+        '(s, r1) <~ parse_xstmt m w2f false rest ;;
         r2 <~ expect tt_WhileToken r1 ;;
         r3 <~ expect tt_OpenParenToken r2 ;;
         '(c, r4) <~ parse true prec_OpExpr r3 ;;
@@ -214,7 +227,7 @@ Fixpoint parse_xstmt (n : nat) (w2f : bool) (ts : list token) {struct n} : res (
         r1 <~ expect tt_OpenParenToken rest ;;
         '(c, r2) <~ parse true prec_OpExpr r1 ;;
         r3 <~ expect tt_CloseParenToken r2 ;;
-        '(s, r4) <~ parse_xstmt m w2f r3 ;;
+        '(s, r4) <~ parse_xstmt m w2f false r3 ;;
         Ok (XWith c s, skip_semi false r4)
       else if ty k =? tt_TryToken then try_arm (fun ts' => parse_xlist m w2f ts' []) rest
       else if ty k =? tt_SwitchToken then switch_arm (fun ts' => parse_xclauses m w2f ts' []) rest
@@ -233,7 +246,7 @@ Fixpoint parse_xstmt (n : nat) (w2f : bool) (ts : list token) {struct n} : res (
         end
       else if negb (stmt_keyword (ty k)) && negb (ty k =? tt_LetToken) && is_identifier (ty k) &&
               match rest with c :: _ => ty c =? tt_ColonToken | [] => false end then
-        '(s, r') <~ parse_xstmt m w2f (tl rest) ;; Ok (XLabel (data k) s, skip_semi false r')
+        '(s, r') <~ parse_xstmt m w2f true (tl rest) ;; Ok (XLabel (data k) s, skip_semi false r')
       else
         '(s, r) <~ parse_stmt (S (length ts)) ts ;; x <~ xwrap s ;; Ok (x, r)
     end
@@ -247,7 +260,7 @@ with parse_xlist (n : nat) (w2f : bool) (ts : list token) (acc : list xstmt) {st
     | [] => Fail
     | k :: r =>
       if ty k =? tt_CloseBraceToken then Ok (rev acc, r)
-      else '(s, r') <~ parse_xstmt m w2f ts ;; parse_xlist m w2f r' (s :: acc)
+      else '(s, r') <~ parse_xstmt m w2f true ts ;; parse_xlist m w2f r' (s :: acc)
     end
   end
 (* the clauses of a switch statement after its '{' *)
@@ -278,7 +291,7 @@ with parse_xcstmts (n : nat) (w2f : bool) (ts : list token) (acc : list xstmt) {
   | O => NoFuel
   | S m =>
     if ends_clause ts then Ok (rev acc, ts)
-    else '(s, r) <~ parse_xstmt m w2f ts ;; parse_xcstmts m w2f r (s :: acc)
+    else '(s, r) <~ parse_xstmt m w2f true ts ;; parse_xcstmts m w2f r (s :: acc)
   end.
 
 Fixpoint parse_xmodule (n : nat) (w2f : bool) (ts : list token) (acc : list xstmt) {struct n} : res (list xstmt) :=
@@ -287,7 +300,7 @@ Fixpoint parse_xmodule (n : nat) (w2f : bool) (ts : list token) (acc : list xstm
   | S m =>
     match ts with
     | [] => Ok (rev acc)
-    | _ => '(s, r) <~ parse_xstmt (S (length ts)) w2f ts ;; parse_xmodule m w2f r (s :: acc)
+    | _ => '(s, r) <~ parse_xstmt (S (length ts)) w2f true ts ;; parse_xmodule m w2f r (s :: acc)
     end
   end.
 
@@ -325,6 +338,7 @@ Fixpoint show_xstmt (s : xstmt) : list Z :=
   | XThrow e => s_stmt ++ [40; 116; 104; 114; 111; 119; 32] ++ show e ++ [41]
   | XBranch t lab => s_stmt ++ [40] ++ tok_bytes t ++ match lab with Some n => 32 :: n | None => [] end ++ [41]
   | XVar l => [68; 101; 99; 108; 40; 118; 97; 114] ++ join_sp (map show_binding l) ++ [41]          (* Decl(var Binding(a) ...) *)
+  | XLex t l => [68; 101; 99; 108; 40] ++ tok_bytes t ++ join_sp (map show_binding l) ++ [41]      (* Decl(let Binding(a) ...) *)
   | XDebugger => s_stmt ++ [40; 100; 101; 98; 117; 103; 103; 101; 114; 41]
   | XWith c v => s_stmt ++ [40; 119; 105; 116; 104; 32] ++ show c ++ [32] ++ show_xstmt v ++ [41]
   | XTry b c f =>
